@@ -160,6 +160,77 @@ def scratch_dir(wd, name):
     return os.path.join(wd, name + ".dbs")
 
 
+
+def lifecycle_sequences(pool_seqs):
+    """Deterministic family around the life cycle of a task's operations across TWO committed
+    syncs (longer than the exhaustive families reach, rarely hit by the random ones): operations
+    added and committed; sync_complete committed or abandoned; the task deleted (with or without
+    its Delete operation), or updated, or left alone; sync_complete again; then the readers on
+    every task, before and after reopening.  Events are taken from TLC's own output (same record
+    shapes), the task id substituted."""
+    proto = {}
+    for h in pool_seqs:
+        for x in h:
+            k = (x["a"], x["op"]["k"], tuple(sorted((x["op"].get("o") or {}).items())) if x["op"]["k"] == "D" else ())
+            proto.setdefault(k, x)
+    need = ["Begin", "Commit", "Abandon", "CreateTask", "DeleteTask", "SyncComplete", "GetTaskOperations",
+            "UnsyncedOperations", "AllTasks"]
+    if any(not any(k[0] == a for k in proto) for a in need + ["AddOperation"]):
+        return []
+
+    def ev(a, u=None, opk=None, dmap=None):
+        for k, x in proto.items():
+            if k[0] != a:
+                continue
+            if a in ("AddOperation", "RemoveOperation"):
+                if k[1] != opk:
+                    continue
+                if opk == "D" and dmap is not None and dict(k[2]) != dmap:
+                    continue
+            e = json.loads(json.dumps(x))
+            if u:
+                if e["u"] != "-":
+                    e["u"] = u
+                if e["op"]["u"] != "-":
+                    e["op"]["u"] = u
+            return e
+        return None
+
+    dmaps = [dict(k[2]) for k in proto if k[0] == "AddOperation" and k[1] == "D"]
+    out = []
+    reopen = ev("Reopen")
+    for tasks in (("u1",), ("u1", "u2")):
+        for first_sync in ("Commit", "Abandon"):
+            for fate in ("delete", "delete+op", "update", "none"):
+                for reop in (False, True):
+                    for third in (False, True):
+                        h = [ev("Begin")]
+                        for u in tasks:
+                            h += [ev("CreateTask", u), ev("AddOperation", u, "C"), ev("AddOperation", u, "U")]
+                        h += [ev("Commit"), ev("Begin"), ev("SyncComplete"), ev(first_sync)]
+                        if reop and reopen:
+                            h.append(reopen)
+                        h.append(ev("Begin"))
+                        u = tasks[0]
+                        if fate.startswith("delete"):
+                            h.append(ev("DeleteTask", u))
+                            if fate == "delete+op" and dmaps:
+                                h.append(ev("AddOperation", u, "D", dmaps[len(out) % len(dmaps)]))
+                        elif fate == "update":
+                            h.append(ev("AddOperation", u, "U"))
+                        h += [ev("Commit"), ev("Begin"), ev("SyncComplete"), ev("Commit")]
+                        if third:
+                            h += [ev("Begin"), ev("CreateTask", u), ev("AddOperation", u, "C"), ev("Commit"),
+                                  ev("Begin"), ev("SyncComplete"), ev("Commit")]
+                        h.append(ev("Begin"))
+                        for t in ("u1", "u2"):
+                            h.append(ev("GetTaskOperations", t))
+                        h += [ev("UnsyncedOperations"), ev("AllTasks"), ev("Commit")]
+                        if all(x is not None for x in h):
+                            out.append(h)
+    return out
+
+
 class Run:
     """One check run: the recorded traces of all steps are validated together at the end."""
 
@@ -433,12 +504,18 @@ def run(tier):
     leg = [h for h in f_l.result() if any(x["a"] == "Legacy" for x in h)] if cli else []
     for f in f_mc:
         f.result()
-    v.distinct += len(sa) + len(sb) + len(sim) + len(ros) + len(leg) + len(so)
+    life = lifecycle_sequences(so + sa)
+    if not life:
+        v.tool_errors.append("life-cycle family: the event vocabulary is incomplete")
+    lcc = consts(TaskArgs={"u1", "u2"}, OpTaskArgs={"u1", "u2"}, MapSel="all")
+    v.distinct += len(sa) + len(sb) + len(sim) + len(ros) + len(leg) + len(so) + len(life)
 
     # ---- the sequences on the real backends
     jobs = [ex.submit(run_.pair, "seqB", gb, sb, "ascii", 20000 if thorough else 2000),
             ex.submit(run_.pair, "seqA", ga, sa, "ascii", 20000),
             ex.submit(run_.pair, "seqO", go, so, "ascii", 20000)]
+    if life:
+        jobs.append(ex.submit(run_.pair, "life", lcc, life, "ascii", 20000))
     f_sim = ex.submit(run_.pair, "sim", s, sim)
     for vc in ("unicode", "edge"):
         jobs.append(ex.submit(run_.pair, f"sim-{vc}", s, sim[:1500] if thorough else sim[:100], vc))
